@@ -137,12 +137,25 @@ def core_facts(src: str) -> dict:
     return {"recovery_tolerates_lost_race": a and b, "_pending_tolerant": a, "_running_tolerant": b}
 
 
-ORDER = ["mem_pending_le", "sqlite_pending_le", "mem_hb_ge", "sqlite_hb_ge", "sqlite_never_hb_selected",
+def loop_facts(src: str) -> dict:
+    """BaseRunner.run: the parent reports its live children's heartbeats on EVERY iteration of the main loop (a top-level
+    statement of the `while self.running` body, not behind any gate)"""
+    tree = ast.parse(src)
+    run = _method(tree, "BaseRunner", "run")
+    loops = [n for n in ast.walk(run) if isinstance(n, ast.While)]
+    if len(loops) != 1:
+        raise TranslateError("BaseRunner.run: expected one while loop")
+    every = any(isinstance(s, ast.Expr) and isinstance(s.value, ast.Call) and isinstance(s.value.func, ast.Attribute)
+                and s.value.func.attr == "_report_child_runner_heartbeats" for s in loops[0].body)
+    return {"child_heartbeats_every_iteration": every}
+
+
+ORDER = ["child_heartbeats_every_iteration", "mem_pending_le", "sqlite_pending_le", "mem_hb_ge", "sqlite_hb_ge", "sqlite_never_hb_selected",
          "recovery_tolerates_lost_race"]
 
 
 def emit(f: dict) -> str:
-    lines = ["(* GENERATED by harness/translate/recovery_facts.py from mem_orchestrator.py, sqlite_orchestrator.py, core_tasks.py *)", ""]
+    lines = ["(* GENERATED by harness/translate/recovery_facts.py from mem_orchestrator.py, sqlite_orchestrator.py, core_tasks.py, base_runner.py *)", ""]
     for k in ORDER:
         lines.append(f"Definition {k} : bool := {'true' if f[k] else 'false'}.")
     return "\n".join(lines) + "\n"
@@ -152,6 +165,7 @@ def translate(repo: str):
     f = mem_facts(open(f"{repo}/pynenc/orchestrator/mem_orchestrator.py").read())
     f.update(sqlite_facts(open(f"{repo}/pynenc/orchestrator/sqlite_orchestrator.py").read()))
     f.update(core_facts(open(f"{repo}/pynenc/core_tasks.py").read()))
+    f.update(loop_facts(open(f"{repo}/pynenc/runner/base_runner.py").read()))
     return emit(f), {"facts": f}
 
 
